@@ -104,6 +104,11 @@ pub trait Check: Send + Sync + 'static {
         vec![]
     }
     /// run each case in a child process (`vcheck --worker <id>`)
+    /// how often a committed replay file is executed in stage 1 (engine code that iterates
+    /// HashMaps with a per-instance random state can take a different path on every execution)
+    fn replay_repeats(&self) -> usize {
+        1
+    }
     fn isolated(&self) -> bool {
         false
     }
@@ -465,7 +470,13 @@ pub fn run_check<CH: Check>(check: CH, args: Args) -> i32 {
             },
         };
         replayed += 1;
-        let (v, obs) = run_one(&*check, &case, &mut child, &args);
+        let (mut v, mut obs) = run_one(&*check, &case, &mut child, &args);
+        for _ in 1..check.replay_repeats().max(1) {
+            if !matches!(v, Verdict::Pass) {
+                break;
+            }
+            (v, obs) = run_one(&*check, &case, &mut child, &args);
+        }
         total.record(&*check, &case, &obs);
         for k in &obs.known_hits {
             known_printed.insert(k.clone());
